@@ -347,7 +347,9 @@ func cpIncr(bz []byte) (ret []byte) {
 	for i := len(bz) - 1; i >= 0; i-- {
 		if ret[i] < byte(0xFF) {
 			ret[i]++
-			return
+			// the bytes after the incremented one are dropped: keeping them (as zeroes) would
+			// put keys without the prefix, e.g. 02 for the prefix 01FF, below the returned end
+			return ret[:i+1]
 		}
 		ret[i] = byte(0x00)
 		if i == 0 {
